@@ -112,6 +112,10 @@ def run(repo, rep, tier):
     r5 = rep.rule("R1.5", "fill == __add__ with a singleton, as rational functions (non-empty and empty node)", floor=10)
     r7 = rep.rule("R1.7", "leaf merge formulas are associative (composition of the extracted rational functions)", floor=6)
     r6 = rep.rule("R1.6", "defs.combine returns a + b; defs.increment fills and returns its argument", floor=2)
+    # partial results are also combined in place (`acc += part`, the Spark path, the containers' own `child += other_child` loops):
+    # a += that does not update and return the receiver loses the chunk, so chunked aggregation differs from one pass
+    rep.borrow(repo, "C07", {"R7.2": ("R1.8", "combining partial results with += keeps the receiver (every __iadd__ returns self)", 19),
+                             "R7.1": ("R1.9", "+= merges every content field the way + does", 50)})
     for c in prims:
         m = models[c.name]
         add = repo.own_method(c, "__add__")
@@ -132,6 +136,20 @@ def run(repo, rep, tier):
                 node = (rf.patch_nodes.get(fld) or rf.ctor_calls or [add.node])[0]
                 rep.finding("R1.1", add, node, f"the `{fld}` of the result does not depend on `{missing}.{fld}`: the content "
                             f"aggregated there is lost by the merge (a + b != fill of both chunks)", stmt=f"{fld} ignores {missing}")
+        # ---------------- R1.1c dict-kind slots are paired by key, never by position
+        for fld in m.slots:
+            if m.slot_kind.get(fld) != "dict":
+                continue
+            labs = rf.fields.get(fld, frozenset())
+            zs = any(p == sn and f2 == fld and fv == "full" and z for (p, f2, fv, z) in labs)
+            zo = any(p == on and f2 == fld and fv == "full" and z for (p, f2, fv, z) in labs)
+            ok = not (zs and zo)
+            r1.ob(ok, f"{c.name}.__add__: children of the key-addressed `{fld}` are paired by key")
+            if not ok:
+                node = (rf.patch_nodes.get(fld) or rf.ctor_calls or [add.node])[0]
+                rep.finding("R1.1", add, node, f"the children in the key-addressed `{fld}` of the two operands are paired through zip(), i.e. by "
+                            f"position: two operands holding the same keys in a different order (equal key sets pass the guard) get "
+                            f"their children cross-merged, so a + b != b + a and zero() + h != h", stmt=f"{fld}: paired by position")
         # ---------------- R1.1b key coverage of dict-kind slots: the keys of the result come from both operands
         for fld in m.slots:
             if m.slot_kind.get(fld) != "dict":
